@@ -37,7 +37,27 @@ RULE = ("Five case types. stripe: a common-mode disturbance (1-5 sinusoids, AP 3
         "(1e-12 scale, float32 1e-6), zero rows stay zero, all finite. Non-trivial = stripe with non-zero ADC shifts "
         "and a component >= 1 kHz (LFP >= 50 Hz); spike under the k-filter; labels with both kinds of channels; coll "
         "with >= 2 groups and a non-default operator / lagc / pad / btype / kfilt; agc with window > 1 and non-zero "
-        "data. Distinct = distinct case hash.")
+        "data. Distinct = distinct case hash. Dimensions drawn on top of every case type (all as case fields with class "
+        "labels): memory layout of the data (C, Fortran order = `block.T`, window of a larger array, every other row/column, "
+        "negative strides, read-only wherever the unchanged code accepts it - not for agc and for kfilt / fk with gain "
+        "control and no groups, which write to their input by design), float32 / float64 data, label vector as float64 / "
+        "float32 / int64 / int8 / uint8, read-only header / label / group arrays; call form of destripe / destripe_lfp: header "
+        "+ version, version only (destripe_lfp: nothing = NP1), header with neuropixel_version left at its default, header "
+        "with neuropixel_version=None (no re-alignment: the stripe is generated un-skewed and label-3 channels must equal "
+        "the filter alone), k_filter given or left at the default, butter_kwargs default / default written out / another "
+        "corner and order as Wn in Hz + fs, normalised or ndarray (the harness designs the same filter), channel_labels "
+        "None / array / True (True == the call with the labels detect_bad_channels gives for the batch, AP only; LFP: shape "
+        "and finiteness); agc(x) with wl / si defaulted. Re-use: the header, label and option objects of a case serve all "
+        "its calls and must compare equal to deep copies afterwards (C05.argument_modified), the data array must be "
+        "untouched after destripe / destripe_lfp (C05.input_modified - the repository's own CSD example filters `raw` again "
+        "after destriping it); a share of the stripe / coll cases repeats the call with the same objects, directly or after "
+        "a call with another header / labels / data / settings of the same shape, and requires the same answer (1e-12); "
+        "agc is called again on what it returned. kfilt calls without groups (direct, or the per-group calls of the "
+        "collection relation) are compared with a reference model written from the docstring: agc(wl=lagc, si=1) -> "
+        "ntr_pad mirrored traces -> cosine taper over ntr_tap traces (None = ntr_pad) at both ends of the padded array "
+        "-> zero-phase Butterworth along channels -> crop -> times gain (1e-9 of the output scale, float32 1e-5; measured "
+        "0 and 4e-8). labels: in half of the cases the data of the channels labelled 1/2 is replaced as well - they are "
+        "rebuilt from good neighbours, so the output may not change (C05.bad_channel_data_used).")
 EXHAUSTIVE_NOTE = ("the peak site of a fixed spike (Ricker sigma 3 samples, 200 uV on 8 sites with 1/(1+k)^2, 5 uV "
                    "background, k-filter) is enumerated over every channel of the four dense headers in the thorough "
                    "tier (every 8th channel plus the 8 channels at both ends in the quick tier); every other dimension "
@@ -65,6 +85,16 @@ ASSUMPTIONS = [
     "agc: epsilon > 0 (with epsilon = 0 a zero stretch gives gain 0 and 0/0)",
     "an upper bound on the kept spike amplitude is not asserted (the property states a lower bound); the maximum is "
     "reported as a margin",
+    "the data array handed to destripe / destripe_lfp, and every header / label / option object handed to any of the "
+    "functions, is the caller's and is not changed (the unchanged code never does; the repository's CSD example and every "
+    "loop over batches re-use them). agc - and through it kfilt / fk without groups - gain-controls its input in place by "
+    "design: nothing is asserted about their data argument, and read-only data is outside their domain",
+    "a result does not depend on what was called before in the same process: repeating a call with the same arguments "
+    "gives the same answer",
+    "the reference model of kfilt uses the repository's agc as a building block (its docstring fixes data * gain == input, "
+    "which the agc cases check, not the window shape) and the cosine ramp documented for utils.fcn_cosine",
+    "channel_labels=True for destripe_lfp runs the detector with a threshold of its own that no docstring states; only "
+    "the AP form is compared with an explicit detect_bad_channels call",
 ]
 BUDGET = {"quick": 560, "thorough": 24000}
 SHRINK = {"quick": False, "thorough": False}
